@@ -302,7 +302,13 @@ def rtf_family(res, wd, quick, seed):
              P(step("descendant", T_NODE, abbr=False)), bin_("|", P(step("descendant", T_NODE, abbr=False)), P(DOS, at(T_ANY), abs_=True)),
              P(DOS, ch(T_ANY), step("preceding-sibling", T_NODE, abbr=False), abs_=True), P(DOS, ch(T_TEXT), step("following", T_NODE, abbr=False), abs_=True),
              bin_("|", P(DOS, at(T_ANY), step("parent", T_NODE, abbr=False), abs_=True), P(DOS, ch(T_COMMENT), abs_=True)),
-             P(DOS, ch(T_NODE, num(1)), abs_=True), P(DOS, ch(T_NODE, fn("last")), abs_=True), P(DOS, ch(T_ANY), step("ancestor-or-self", T_NODE, abbr=False), abs_=True)]
+             P(DOS, ch(T_NODE, num(1)), abs_=True), P(DOS, ch(T_NODE, fn("last")), abs_=True), P(DOS, ch(T_ANY), step("ancestor-or-self", T_NODE, abbr=False), abs_=True),
+             # the ROOT of the fragment united with its nodes, in both operand orders: root first (the root of a fragment is a document
+             # fragment node of its own kind; its nodes are owned by a document that is only a factory)
+             bin_("|", P(ch(T_NODE)), P(step("self", T_NODE))), bin_("|", P(step("self", T_NODE)), P(ch(T_NODE))),
+             bin_("|", P(DOS, ch(T_TEXT), abs_=True), P(abs_=True)), bin_("|", P(abs_=True), P(DOS, at(T_ANY), abs_=True)),
+             bin_("|", bin_("|", P(DOS, ch(T_ANY), abs_=True), P(abs_=True)), P(DOS, ch(T_COMMENT), abs_=True)),
+             bin_("|", P(step("descendant", T_NODE, abbr=False)), P(DOS, ch(T_ANY, num(1)), step("ancestor", T_NODE, abbr=False), abs_=True))]
     cases, metas = [], []
     for d, t in enumerate(docs):
         g = xpgen.Gen(rng)
